@@ -567,9 +567,11 @@ static std::string base_sid(Rng &r)
 
 static int record(uint64_t seed, long n)
 {
-  for (long i = 0; i < n; ++i)
-  {
+  return forked_loop(size_t(n), [&](size_t ii) {
+    long i = long(ii);
     Rng r(mix(seed, uint64_t(i), 78));
+    adversary().mode = unsigned((i / 3) % 3);
+    adversary().seed = r.next();
     Caller caller = make_caller(r, int(i % 3));
     uint32_t kind = r.below(10);
     json e;
@@ -662,9 +664,7 @@ static int record(uint64_t seed, long n)
            {"x", obs_event(o)}, {"raw", raw}};
     }
     std::cout << e.dump() << std::endl;
-  }
-  current_case().clear();
-  return 0;
+  }, [](size_t ii) { return long(ii); }, 12);
 }
 
 int main(int argc, char **argv)
